@@ -281,7 +281,7 @@ def bounded(tier, seed):
     from datetime import datetime, timedelta, timezone
     P = H.real()
     run = H.Run('C16', tier, seed, budget_s=60 if tier == 'quick' else 400)
-    coords = [[10, 20, 30, 40], [1, 2, 4, 8, 16], [0, 1], [0, 100, 200, 300, 400, 500], [5, 6, 8, 9, 13, 14]]
+    coords = [[10, 20, 30, 40], [1, 2, 4, 8, 16], [0, 1], [0, 100, 200, 300, 400, 500], [5, 6, 8, 9, 13, 14], list(range(1, 49, 2))]
     if tier != 'quick':
         coords += [list(run.nprng.integers(1, 5, n).cumsum()) for n in (3, 4, 6)]
 
@@ -309,6 +309,8 @@ def bounded(tier, seed):
                     eps = np.abs(np.diff(e)).min() * 1e-6
                     qs = np.concatenate([xd, e, (e[1:] + e[:-1]) / 2, e + eps, e - eps, (xd[1:] * 3 + xd[:-1]) / 4,
                                          [e.min() - 3, e.max() + 3]])
+                    # queries are not unique in general: every other query once more, the out-of-domain ones twice more
+                    qs = np.concatenate([qs, qs[::2], qs[-2:], qs[-2:]])
                     for method in ('nearest', 'bounds', 'exact'):
                         sig = (base, sgn, dt, bnds, method)
 
@@ -399,7 +401,7 @@ def bounded(tier, seed):
     return run.result(
         rule='real val2idx vs brute-force search: coordinates x directions x dtypes(f8,f4,i4) x bounds representations x methods; queries at every '
              'centre, edge, mid-cell, +-1e-6 cell around every edge, quarter points and beyond both ends; time2idx/date2num on hourly/daily axes',
-        bound='coordinates of length 2-6 (quick: 5 shapes), 3 dtypes, 3 bounds representations, 3 methods')
+        bound='coordinates of length 2-6 and one of 24 (quick: 6 shapes), queries with repeated values, 3 dtypes, 3 bounds representations, 3 methods')
 
 
 def bounded_replay(p):
